@@ -4,6 +4,7 @@
 //     f:<name>:<int>     add(fun(() -> int), name)                 g:<name>:<int>  add_global(var(int), name)
 //     k:<name>:<int>     add_global_const                          u:<hex path>  use(file)  (the file calls bump())
 //     o:<n>:<int>        add an overload of `shared_ov` and of `+` for the parameter type Tag<n>
+//     G:<name>:<int>     eval "global <name> = <int>" (recorded for the final read)   H:<name>   eval "global <name>" (the same name, from another thread)
 //     s                  get_state()                               y             std::this_thread::yield()
 //   output: t0=<results>;t1=<results>;...|bumps=<n>|final=<main thread reads every registered name>
 // A data race makes ThreadSanitizer abort the process (TSAN_OPTIONS=halt_on_error=1): the driver then knows the workload.
@@ -65,6 +66,8 @@ int main() {
               else if (f[0] == "c" && f.size() == 2) { r = eval_int(chai, f[1] + "()"); rec = true; }
               else if (f[0] == "f" && f.size() == 3) { const int v = std::stoi(f[2]); chai.add(fun([v]() { return v; }), f[1]); std::lock_guard<std::mutex> l(reg_m); registered.push_back(f[1] + "()"); }
               else if (f[0] == "g" && f.size() == 3) { chai.add_global(var(std::stoi(f[2])), f[1]); std::lock_guard<std::mutex> l(reg_m); registered.push_back(f[1]); }
+              else if (f[0] == "G" && f.size() == 3) { chai.eval("global " + f[1] + " = " + f[2]); std::lock_guard<std::mutex> l(reg_m); registered.push_back(f[1]); }   // script `global x = v`
+              else if (f[0] == "H" && f.size() == 2) { chai.eval("global " + f[1]); }                                                  // other threads declare the same name at the same time
               else if (f[0] == "k" && f.size() == 3) { chai.add_global_const(const_var(std::stoi(f[2])), f[1]); std::lock_guard<std::mutex> l(reg_m); registered.push_back(f[1]); }
               else if (f[0] == "o" && f.size() == 3) { add_overloads<63>(chai, std::stoi(f[1]) % 64, std::stoi(f[2])); }     // another overload of shared_ov and of +
               else if (f[0] == "u" && f.size() == 2) { chai.use(vh::hex_decode(f[1])); }
